@@ -23,11 +23,18 @@ import (
 const Reset = -1
 
 // DetCase is a stream for the deterministic leg: Ops[i] >= 0 adds that
-// value, Ops[i] == -1 resets the counter.
+// value, Ops[i] == -1 resets the counter.  The stream is fed to Reps (at
+// least 1) independent fresh counters: the clauses must hold on every run,
+// and a defect that shows only for some random choices of the counter (F8
+// needed a halving pass that removes nothing) is hit, and reproduced by the
+// replay, far more reliably.
 type DetCase struct {
 	Size int   `json:"n"`
+	Reps int   `json:"reps,omitempty"`
 	Ops  []int `json:"ops"`
 }
+
+const maxReps = 256
 
 func clampSize(n int) int {
 	if n < 2 {
@@ -36,8 +43,27 @@ func clampSize(n int) int {
 	return n
 }
 
-// runDet interprets a DetCase: oracle after every single Add / Reset.
+// runDet interprets a DetCase: oracle after every single Add / Reset, on
+// each of the Reps independent counters.
 func runDet(c DetCase, o *vk.Obs) string {
+	reps := min(max(c.Reps, 1), maxReps)
+	for r := 0; r < reps; r++ {
+		ob := o
+		if r > 0 {
+			ob = &vk.Obs{} // classify once
+		}
+		if msg := runDetOnce(c, ob); msg != "" {
+			if reps > 1 {
+				return fmt.Sprintf("%s [counter %d of %d]", msg, r+1, reps)
+			}
+			return msg
+		}
+	}
+	o.ClassIf(reps > 1, "several_counters_per_stream")
+	return ""
+}
+
+func runDetOnce(c DetCase, o *vk.Obs) string {
 	size := clampSize(c.Size)
 	ctr := distinct.NewCounter[int](size)
 	if l, n := ctr.Len(), ctr.Count(); l != 0 || n != 0 {
@@ -273,7 +299,7 @@ func verdict(what string, size, d int, st stat) (float64, string) {
 	if st.SD == 0 {
 		// all counters agree (e.g. below capacity): the mean must be exact
 		if st.Mean != float64(d) {
-			return 0, fmt.Sprintf("%s: all %d counters report Count = %v, true distinct count is %d", what, st.N, st.Mean, d)
+			return math.Inf(1), fmt.Sprintf("%s: all %d counters report Count = %v, true distinct count is %d", what, st.N, st.Mean, d)
 		}
 		return 0, ""
 	}
